@@ -24,6 +24,11 @@ def obligations(tier):
         obs.append(Ob("needs-rehash-" + nm, "C08/pwhash.c", units=[A2 + "pwhash_argon2i.c", A2 + "argon2-encoding.c", A2 + "argon2-core.c"] + COMMON,
                       stubs=STUBS, defs={"PART": 1, "ID": idv}, unwind=70, timeout=900, mem=6, family="needs-rehash",
                       desc="str_needs_rehash == 0/1/-1 per statement", bounds="all 64-bit (opslimit, memlimit); skeleton string m=8,t=3 with any one structural character replaced by any non-digit"))
+    for fld, fn in enumerate(("m", "t", "p", "v")):
+        obs.append(Ob("needs-rehash-bigparam-" + fn, "C08/pwhash.c", units=[A2 + "pwhash_argon2i.c", A2 + "argon2-encoding.c", A2 + "argon2-core.c"] + COMMON,
+                      stubs=STUBS, defs={"PART": 5, "ID": 1, "FIELD": fld}, unwind=90, timeout=900, mem=6, family="needs-rehash",
+                      desc="hash string whose %s= field is any 10-digit decimal: values above 2^32-1 => malformed (-1), never truncated" % fn,
+                      bounds="all 10-digit values of the field (9*10^9 strings), rest of the string fixed"))
     for nch in ((1, 2, 4) if tier != "thorough" else (1, 2, 3, 4, 6, 12)):
         obs.append(Ob("decode-decimal-%dch" % nch, "C08/pwhash.c", units=[A2 + "argon2-core.c"] + COMMON, stubs=STUBS,
                       defs={"PART": 3, "NCH": nch}, unwind=30, timeout=900, family="decode-decimal",
